@@ -65,7 +65,7 @@ def gen_case(rng, tier, index):
     if kind == "reject_empty":
         return {"n": rng.randint(0, 20), "wells": [], "form": rng.choice(["list", "array", "2d0", "2dR0", "slice_beyond_last_column", "tuple"]),
                 "reject": "empty", "rows": rng.randint(1, 8), "cols": rng.randint(1, 3)}
-    bad = rng.choice([-1, -rng.randint(2, 1000), 2.5, 3.0, "3", None, float("nan"), float("inf"), -0.5, [3],
+    bad = rng.choice([-1, -rng.randint(2, 1000), 2.5, 3.0, 8.0, float(rng.randint(0, 40)), "3", None, float("nan"), float("inf"), -0.5, [3], {"__npf__": 8.0}, {"__npf__": float(rng.randint(1, 30))},
                       {"__npf__": 3.75}, {"__npf__": 2.5}, {"__npf__": -0.4}, {"__npf32__": 2.5}, {"__npf__": 1e-9}])
     return {"n": bad, "wells": _ids(rng.randint(1, 8)), "form": "list", "reject": "n"}
 
@@ -117,6 +117,15 @@ def run_case(ctx, case):
     wells = _materialise(case)
     reject = case.get("reject")
     ctx.feature("form", case["form"])
+    if reject == "n":
+        # the same question with the nearest legal n was asked just before (answers must not depend on what was asked earlier)
+        try:
+            f_ = float(n)
+            if f_ == f_ and abs(f_) < 1e6:
+                robotools.get_trough_wells(int(abs(round(f_))), _materialise(case))
+                ctx.count("legal_call_before_the_invalid_one")
+        except Exception:
+            pass
     try:
         out = robotools.get_trough_wells(n, wells)
         exc = None
